@@ -119,6 +119,16 @@ Basket2Genesis ==
                           [a |-> "a2", d |-> BasketDenomOf("C", "NCT"), n |-> 1]},
      !.csupply = @ \cup {[d |-> BasketDenomOf("C", "NCT"), n |-> 3]}]
 
+\* the micro configuration credits2_e starts here: as basket2, but batch 1 is open, both
+\* batches have a non-zero cancelled supply, and two accounts hold retired credits of batch 1
+Credits2Genesis ==
+  [Basket2Genesis EXCEPT
+     !.batches = {[b EXCEPT !.open = (b.key = 1)] : b \in @},
+     !.bal     = {[a |-> "a1", bk |-> 1, t |-> 1, r |-> 1, e |-> 0],
+                  [a |-> "a1", bk |-> 2, t |-> 1, r |-> 0, e |-> 0],
+                  [a |-> "a2", bk |-> 1, t |-> 1, r |-> 1, e |-> 0]},
+     !.supply  = {[bk |-> 1, t |-> 4, r |-> 2, c |-> 1], [bk |-> 2, t |-> 2, r |-> 0, c |-> 1]}]
+
 \* bridge family: polygon is an allowed chain, the batch is bound to contract k1
 BridgeGenesis ==
   [BatchGenesis EXCEPT
@@ -262,6 +272,7 @@ GenesisState ==
     [] Genesis = "basket"  -> BasketGenesis
     [] Genesis = "basket2" -> Basket2Genesis
     [] Genesis = "basket3" -> Basket3Genesis
+    [] Genesis = "credits2" -> Credits2Genesis
     [] Genesis = "bridge"  -> BridgeGenesis
     [] Genesis = "bridge2" -> Bridge2Genesis
     [] Genesis = "fee"     -> FeeGenesis
